@@ -48,8 +48,8 @@ AXES = {
     'rm':       RMS,
 }
 AXES_C09 = {
-    'callee':   ['leaf', 'own-ctx', 'mutates', 'ret-in-with', 'multi-ret', 'chain', 'clash-names', 'free-var', 'loop-body', 'tuple-ret'],
-    'callpos':  ['assign', 'loop', 'nested-with', 'arg-effect', 'if-cond', 'while-cond', 'comp-elt', 'ifexpr', 'and-or', 'ctx-expr', 'effect-stmt', 'return', 'chain-cmp', 'index'],
+    'callee':   ['leaf', 'own-ctx', 'mutates', 'ret-in-with', 'multi-ret', 'chain', 'clash-names', 'free-var', 'loop-body', 'tuple-ret', 'const', 'only-return', 'zero-param', 'with-as'],
+    'callpos':  ['assign', 'twice', 'after-read', 'loop', 'nested-with', 'arg-effect', 'if-cond', 'while-cond', 'comp-elt', 'ifexpr', 'and-or', 'ctx-expr', 'effect-stmt', 'return', 'chain-cmp', 'index'],
 }
 IDIOMS = {
     'C07': ['copy-shadow', 'fold-ctx', 'phi-chain', 'swap-loop', 'dead', 'alias', 'for-acc', 'argmax', 'ctx-as', 'reduce', 'while', 'zipcomp', 'filler'],
@@ -60,7 +60,7 @@ IDIOMS = {
 
 class Prog:
     """one generated test program"""
-    __slots__ = ('label', 'entry', 'src', 'args', 'kinds', 'pnames', 'axes', 'loops', 'factors', 'ctxs', 'pinned', 'samelen', 'quadratic', 'pre', 'helpers', 'assigned', 'corpus_file', 'export')
+    __slots__ = ('label', 'entry', 'src', 'args', 'kinds', 'pnames', 'axes', 'loops', 'factors', 'ctxs', 'pinned', 'samelen', 'quadratic', 'pre', 'helpers', 'assigned', 'corpus_file', 'export', 'decl')
     def __init__(self, **kw):
         for k in self.__slots__: setattr(self, k, kw.get(k))
     def to_dict(self):
@@ -1077,6 +1077,15 @@ class FB:
         if v == acc: v = f'v{next(self.fresh)}'
         if pos == 'assign':
             self.emit(f'{v} = {cv()} + {acc}')
+        elif pos == 'twice':
+            e1 = self.rexp(0)
+            self.emit(f'{v} = {e1} * {cv()} + (1 - {e1}) * {cv()}')
+        elif pos == 'after-read' and ls and G.mut_helper:
+            l = R.choice(ls)
+            self.emit(f'{v} = {acc}')
+            self.emit(f'if len({l}) > 0:')
+            self.emit(R.choice([f'    {v} = {l}[0] - {G.mut_helper}({l}, {self.rexp(0)})', f'    {v} = sum({l}) * 2 + {G.mut_helper}({l}, 1)',
+                                f'    {v} = ({l}[0] + {acc}) * {G.mut_helper}({l}, {acc})', f'    {v} = max({l}[0], 1) / {G.mut_helper}({l}, 2)']))
         elif pos == 'return':
             self.emit(f'{v} = {cv()}')
         elif pos == 'arg-effect':
@@ -1108,7 +1117,7 @@ class FB:
             b = self.new('B', 'local', 'p'); self.emit(f'{b} = {self.rexp(0)} < {self.rexp(0)} < {cv()}'); self.bind(b, 'B'); self.emit(f'{v} = {acc}')
         elif pos == 'ctx-expr':
             if G.mut_helper and ls:
-                self.emit(f'with fp.MPFloatContext({G.mut_helper}({R.choice(ls)}, 1) + 2, fp.RM.{self.rm()}):'); self.emit(f'    {v} = {acc} / 3 + {self.rexp(0)}')
+                self.emit(f'with fp.MPFloatContext(min(abs({G.mut_helper}({R.choice(ls)}, 1)), 40) + 2, fp.RM.{self.rm()}):'); self.emit(f'    {v} = {acc} / 3 + {self.rexp(0)}')
             else:
                 self.emit(f'{v} = {cv()}')
         elif pos == 'effect-stmt':
@@ -1181,11 +1190,23 @@ class Gen:
             info['ptys'] = ['L', 'R']
             body = [f'{t} = {a}', f'for {i} in {l}:', f'    {t} = {t} * 2 + {i}', f'return {t}']
             if R.random() < 0.5: body = [f'with {cx}:'] + ['    ' + b for b in body]
+        elif shape == 'const':
+            info['ptys'] = []
+            body = [f'return {R.choice(["1 / 3", "0.1", "2.5", "fp.sqrt(2)", "-0.0", "0.1 + 0.2"])}']
+        elif shape == 'only-return':
+            body = [f'return {x} * {R.choice(["2", "0.5", x])} + {R.choice(["1", "0.1", x])} / 3']
+        elif shape == 'zero-param':
+            info['ptys'] = []
+            body = [f'{t} = 1 / 3', f'{u} = {t} * {t} + 0.1', f'return {u} - {t}']
+        elif shape == 'with-as':
+            info['ptys'] = ['R', 'R']
+            cv = R.choice(['c', 'cv', 'ctx', t + 'c'])
+            body = [f'with {cx} as {cv}:', f'    {t} = {x} / 3', f'{u} = {t} + {a}', f'with {cv}:', f'    {u} = {u} / 7 + {t}', f'return {u}']
         elif shape == 'tuple-ret':
             info['ptys'] = ['R', 'R']; info['tuple'] = True
             body = [f'{t} = {x} + {a}', f'return ({t}, {x} - {a})']
         if dec == '@fp.fpy' and R.random() < 0.3: dec = f'@fp.fpy(ctx={cx})'
-        pn = {('R',): [x], ('R', 'R'): [x, a], ('L', 'R'): [l, a]}[tuple(info['ptys'])]
+        pn = {(): [], ('R',): [x], ('R', 'R'): [x, a], ('L', 'R'): [l, a]}[tuple(info['ptys'])]
         params = [f'{n}: {ANN[ty]}' for n, ty in zip(pn, info['ptys'])]
         self.helpers[name] = info
         return '\n'.join([dec, f'def {name}(' + ', '.join(params) + '):'] + ['    ' + b for b in body]) + '\n'
@@ -1240,6 +1261,10 @@ class Gen:
             decl = R.choice(STATIC_ATTR + STATIC_CTOR + LOWPREC).format(rm=row['rm'])
         fb = FB(self, f'f_{tag}', params, decl)
         fb.realised.add('rm')
+        if any(i['shape'] == 'free-var' for i in self.helpers.values()) and self.globals_ and R.random() < 0.5:
+            g = [n for n, ty in self.globals_ if ty == 'R'][0]
+            if g in self.used_globals:
+                fb.emit(f'{g} = {fb.rexp(1)}'); fb.bind(g, 'R')     # a local of the caller that shares its name with a callee's free variable
         amb = row['ctx']; opened = []
         whole = R.random() < 0.6
         def open_amb():
@@ -1307,8 +1332,8 @@ class Gen:
         for idm in idioms: self.count(f'idiom:{idm}')
         kinds = [t for _, t in SLOTS]
         factors = [names['k'], names['q'], f'{names["k"]} + 1', f'len({names["xs"]})', f'max({names["k"]}, 1)']
-        p = Prog(label=f'xgen:{tag}', entry=f'f_{tag}', src=src, kinds=kinds, pnames=pn, axes=dict(row), loops=loops, factors=factors,
-                 pinned=decl is not None, quadratic=fb.quadratic, pre=None, helpers=sorted(self.helpers), assigned=sorted(fb.assigned), export=not (self.noexp or self.used_globals))
+        p = Prog(label=f'xgen:{tag}', entry=f'f_{tag}', src=src, kinds=kinds, pnames=pn, axes=dict(row, idioms=[i.rstrip('+') for i in idioms], callees=[i['shape'] for i in self.helpers.values()]), loops=loops, factors=factors,
+                 pinned=decl is not None, quadratic=fb.quadratic, pre=None, helpers=sorted(self.helpers), assigned=sorted(fb.assigned), export=not (self.noexp or self.used_globals), decl=decl)
         p.args = design_args(R, kinds, p.quadratic)
         p.ctxs = [None] + ([R.choice(CALL_CTXS[1:])] if decl is None else [])
         return p
@@ -1324,7 +1349,7 @@ class Gen:
 
 
 # ====================================================================== inputs
-REALS = ['1.5', '-2.25', '0.1', '3.0', '100.0', '-0.0', '0.0', 'float("inf")', 'float("nan")', '1e300', '-7.0', '0.3', '2.0 ** -30', '5', '200.0', '1.0', '-1.0', '2.0', '0.5', '1e-320']
+REALS = ['1.5', '-2.25', '0.1', '3.0', '100.0', '-0.0', '0.0', 'float("inf")', 'float("nan")', '1e30', '-7.0', '0.3', '2.0 ** -30', '5', '200.0', '1.0', '-1.0', '2.0', '0.5', '1e-320']
 SAFE_REALS = ['1.5', '-2.25', '0.1', '3.0', '100.0', '-7.0', '0.3', '5', '1.0', '-1.0', '2.0', '0.5', '7.0', '-0.0', '0.0']
 
 def elems(R, n, pat):
